@@ -352,7 +352,8 @@ func c16Oracle(c *oracleCtx) {
 func jsonDocs(c *oracleCtx) []string {
 	ws := []string{"", " ", "\n\t\r "}
 	scalars := []string{"null", "true", "false", "0", "-0", "1", "-1", "10", "1E5", "1e+5", "1e-5", "1.0", "0.5", "-1.5e3", "9223372036854775807", "9223372036854775808", "-9223372036854775808", "12345678901234567", "1.7976931348623157e308", "0.1e1",
-		`""`, `"a"`, `"\""`, `"\\"`, `"\/"`, `"\b\f\n\r\t"`, `"\u0041"`, `"\u00e9"`, `"\uD83D\uDE00"`, `"\ud83d\ude00"`, `" "`, `"é"`, `"` + "\uFFFD" + `"`, `"😀"`, `"a\\\"b"`, `"[{,:}]"`, `"\u0000"`, `"/"`, `"\u2028"`}
+		`""`, `"a"`, `"\""`, `"\\"`, `"\/"`, `"\b\f\n\r\t"`, `"\u0041"`, `"\u00e9"`, `"\uD83D\uDE00"`, `"\ud83d\ude00"`, `" "`, `"é"`, `"` + "\uFFFD" + `"`, `"😀"`, `"a\\\"b"`, `"[{,:}]"`, `"\u0000"`, `"/"`, `"\u2028"`,
+		`"\ud800"`, `"\ud800\u0041"`, `"\udc00\ud83d\ude00"`, `"\ud800x"`, `"x\udfff"`, `"\ud83d\u00e9"`}
 	var docs []string
 	for _, s := range scalars {
 		for _, w := range ws {
